@@ -728,7 +728,7 @@ func c05RulePending(p *Program, r *Reporter) {
 		return ok && sameOrigin(base, fetcherArg)
 	}
 	var shortcutPrefix, shortcutSuffix string
-	haveShortcut := false
+	haveShortcut, sawShortcut := false, false
 	seq := map[string]int{}
 	for _, nr := range nilRets {
 		ret := nr.Ret
@@ -742,6 +742,7 @@ func c05RulePending(p *Program, r *Reporter) {
 			return key + "#return-" + class
 		}
 		if !Precedes(pmm, ret) {
+			sawShortcut = true
 			// already-indexed shortcut
 			construct := name("already-indexed")
 			k, val, hs := BoolCallFact(blk, func(c CallSite) bool { return c.IsStatic("strings", "", "HasSuffix") })
@@ -850,6 +851,9 @@ func c05RulePending(p *Program, r *Reporter) {
 
 	// (3) have: row — the indexed suffix is written only when the error is not errMissingDep
 	_, mayMD := c05MayReturnMissingDep(p)
+	if !sawShortcut {
+		shortcutPrefix = "none"
+	}
 	c05HaveRow(p, r, rule, pmmFn, mayMD, haveShortcut, shortcutPrefix, shortcutSuffix)
 
 	// (4) noteNeededLocked persists before it reports success; map roles
@@ -899,6 +903,10 @@ func c05PmmErrImpliesMisses(pmmFn *ssa.Function) (bool, string) {
 
 func c05HaveRow(p *Program, r *Reporter, rule string, pmmFn *ssa.Function, mayMD map[*ssa.Function]bool, haveShortcut bool, prefix, suffix string) {
 	key := FuncKey(pmmFn)
+	if !haveShortcut && prefix == "none" {
+		r.OKTable(rule, key+"#have-row", p.Pos(pmmFn.Pos()), "ReceiveBlob has no already-indexed shortcut: no reader relies on an 'indexed' marker in the have row")
+		return
+	}
 	if !haveShortcut {
 		r.Undecided(rule, key+"#have-row", p.Pos(pmmFn.Pos()), "the already-indexed shortcut of ReceiveBlob was not recognised, so the row prefix/suffix it relies on are unknown and the writer cannot be checked against them")
 		return
